@@ -142,7 +142,21 @@ structure Inv (s : St) (g : Ghost) : Prop where
 
 theorem inv_init : Inv init Ghost.init := ⟨rfl, rfl, rfl⟩
 
-theorem guardHolds_own (acc own : Str) : guardHolds acc own = !own.isEmpty := rfl
+/-- OBLIGATION ON THE GENERATED FILE.  Whatever shape the translated guard of `append_output`
+has, on every observation (raw output so far empty or not, own text empty or not) it is
+defined (nothing in it is `unknown`) and its value is "the own text is non-empty".  A guard on
+the accumulated output, no guard, or an expression the translator could not read fails here. -/
+theorem guard_sem (p o : Bool) : evalGuard appendGuard p o = some o := by
+  cases p <;> cases o <;> rfl
+
+theorem guardHolds_own (prior own : Str) : guardHolds prior own = !own.isEmpty := by
+  simp [guardHolds, guard_sem]
+
+/-- OBLIGATION ON THE GENERATED FILE: the default input was established (read or measured). -/
+theorem default_known : defaultKnown = true := rfl
+
+/-- OBLIGATION ON THE GENERATED FILE: the mocked `input` takes the FRONT of the queue. -/
+theorem pop_front : popEnd = PopEnd.front := rfl
 
 theorem inv_step (s : St) (g : Ghost) (op : Op) (h : Inv s g) : Inv (step s op) (gstep s g op) := by
   cases op with
